@@ -170,6 +170,7 @@ const (
 	opPSave
 	opBrace
 	opNumber
+	opMaxRepeat
 )
 
 type inst struct {
@@ -486,14 +487,9 @@ func compilePattern(p pattern, ps ...*iptr) []inst {
 		idx := len(ptr.insts)
 		switch pat.Type {
 		case '*':
-			ptr.insts = append(ptr.insts,
-				inst{opSplit, nil, idx + 1, idx + 3},
-				inst{opChar, pat.Class, -1, -1},
-				inst{opJmp, nil, idx, -1})
+			ptr.insts = append(ptr.insts, inst{opMaxRepeat, pat.Class, 0, -1})
 		case '+':
-			ptr.insts = append(ptr.insts,
-				inst{opChar, pat.Class, -1, -1},
-				inst{opSplit, nil, idx, idx + 2})
+			ptr.insts = append(ptr.insts, inst{opMaxRepeat, pat.Class, 1, -1})
 		case '-':
 			ptr.insts = append(ptr.insts,
 				inst{opSplit, nil, idx + 3, idx + 1},
@@ -600,6 +596,20 @@ redo:
 			}
 			if int(src[sp]) == inst.Operand1 {
 				count++
+			}
+		}
+		return false, sp, m
+	case opMaxRepeat:
+		// greedy repetition of a single class (Operand1 = minimum count): take as many characters as
+		// possible, then give them back one at a time until the rest of the pattern matches.  Done with
+		// a loop, so that the recursion depth does not grow with the length of the subject.
+		n := 0
+		for sp+n < len(src) && inst.Class.Matches(int(src[sp+n])) {
+			n++
+		}
+		for ; n >= inst.Operand1; n-- {
+			if ok, nsp, _ := recursiveVM(src, insts, pc+1, sp+n, recLevel, m); ok {
+				return true, nsp, m
 			}
 		}
 		return false, sp, m
